@@ -378,6 +378,36 @@ def pixelBytes (Q : Ext) (name : String) (p : Prec) (px : Pix) : Option (List Na
 def blockBytes (Q : Ext) (name : String) (p : Prec) (ch : Chan) (pxs : List Pix) : Option (List Nat) :=
   (blockCodes Q name p ch pxs).map (bytesOf name)
 
+/-! ### the formats whose whole chain is bit-level -/
+
+/-- an instance of the parameters: every unmodelled conversion is constant 0.  Used to EVALUATE the model on the
+formats of `bitLevelNames`, whose closures consult no field of `Ext` except `tie` (irrelevant: C15
+`sharedexp_tie_irrelevant`) — the `carrier` case lines of the tie and the examples of Theorems/C12. -/
+def extZero : Ext := ⟨fun _ => 0, fun _ => 0, fun _ => 0, fun _ => 0, fun _ _ _ => (0, 0, 0), fun _ _ _ => (0, 0, 0),
+  fun _ _ _ => (0, 0, 0), fun _ => false⟩
+
+/-- the formats whose conversion chain is modelled at the bit level from the `ImageView` to the bytes: UNORM / SNORM /
+packed / binary32 / shared-exponent plain formats, R1_UNORM and the two RGBG formats -/
+def bitLevelNames : List String :=
+  ["R8G8B8_UNORM", "B8G8R8_UNORM", "R8G8B8A8_UNORM", "R8G8B8A8_SNORM", "B8G8R8A8_UNORM", "B8G8R8X8_UNORM",
+   "B5G6R5_UNORM", "B5G5R5A1_UNORM", "B4G4R4A4_UNORM", "A4B4G4R4_UNORM", "R8_SNORM", "R8_UNORM", "R8G8_UNORM",
+   "R8G8_SNORM", "A8_UNORM", "R16_UNORM", "R16_SNORM", "R16G16_UNORM", "R16G16_SNORM", "R16G16B16A16_UNORM",
+   "R16G16B16A16_SNORM", "R10G10B10A2_UNORM", "R9G9B9E5_SHAREDEXP", "R32_FLOAT", "R32G32_FLOAT", "R32G32B32_FLOAT",
+   "R32G32B32A32_FLOAT", "R1_UNORM", "R8G8_B8G8_UNORM", "G8R8_G8B8_UNORM"]
+
+/-- the pixels of one row in blocks of `bw` (the last one may be short: `uniBlock` pads it) -/
+def chunksOf (bw : Nat) : (fuel : Nat) → List Pix → List (List Pix)
+  | 0, _ => []
+  | fuel + 1, l => if l.isEmpty then [] else l.take bw :: chunksOf bw fuel (l.drop bw)
+
+/-- the bytes of one row of pixels in the colour format (`ch`, `p`) -/
+def rowBytes (Q : Ext) (name : String) (p : Prec) (ch : Chan) (row : List Pix) : Option (List Nat) :=
+  let bw := blockPixels name
+  let parts :=
+    if bw = 1 then row.map (pixelBytes Q name p)
+    else (chunksOf bw row.length row).map (blockBytes Q name p ch)
+  parts.foldr (fun x acc => match x, acc with | some a, some b => some (a ++ b) | _, _ => none) (some [])
+
 /-! ### the format lists -/
 
 /-- the 35 plain formats (one pixel → one stored unit) -/
